@@ -169,6 +169,7 @@ def build(src):
           Rule("D7.optional-bool", r"static_cast<bool>\((value_|default_)\)", r"self->\1has"),
           Rule("D7.optional-assign", r"\bvalue_\s*=\s*lang::optional<std::string>\(\);", "self->value_has = 0;"),
           Rule("D7.optional-assign", r"\bvalue_\s*=\s*\*default_;", "{ self->value_ = self->default_; self->value_has = 1; }"),
+          Rule("D7.optional-assign", r"\bvalue_\s*=\s*std::move\(\*default_\);", "{ self->value_ = self->default_; self->value_has = 1; self->default_.len = 0; self->default_.id = OSTR_ID_EMPTY; }"),
           Rule("D7.optional-assign", r"\bvalue_\s*=\s*env_value;", "{ self->value_ = env_value; self->value_has = 1; }"),
           Rule("D7.optional-assign", r"\bvalue_\s*=\s*\(\*ui_value\(arg\)\);", "{ const struct ostr *nitro_v = ui_value(arg); NITRO_PROPAGATE; self->value_ = *nitro_v; self->value_has = 1; }"),
           Rule("D7.env-get", r"nitro::env::get\((?:env\(\)|base_env\(&self->b\))\)", "nitro_env_get(base_env(&self->b))"),
@@ -187,6 +188,8 @@ def build(src):
           Rule("D7.vector-push", r"\bvalue_\.push_back\(\(\*ui_value\(arg\)\)\);", "{ const struct ostr *nitro_v = ui_value(arg); NITRO_PROPAGATE; ovec_push_back(&self->value_, nitro_v); }"),
           Rule("D7.vector-push", r"\bvalue_\.push_back\(element\);", "ovec_push_back(&self->value_, &element);"),
           Rule("D7.vector-assign", r"\bvalue_\s*=\s*\*default_;", "self->value_ = self->default_;"),
+          # moving out of a std::vector leaves it empty (libstdc++; the standard says valid but unspecified)
+          Rule("D7.vector-assign", r"\bvalue_\s*=\s*std::move\(\*default_\);", "{ self->value_ = self->default_; ovec_clear(&self->default_); }"),
           Rule("D7.optional-bool", r"\bif\s*\(\s*default_\s*\)", "if (self->default_has)"),
           Rule("D7.env-get", r"nitro::env::get\((?:env\(\)|base_env\(&self->b\))\)", "nitro_env_get(base_env(&self->b))"),
           Rule("D7.string-empty", r"!env_value\.empty\(\)", "(env_value.len != 0)"),
@@ -200,7 +203,8 @@ def build(src):
     u.add(F("multi_prepare", MOPT, r"void multi_option::prepare\(\)", "void multi_prepare(%s)" % sm, ["C14"], rules=MB))
     u.add(F("multi_check", MOPT, r"void multi_option::check\(\)", "void multi_check(%s)" % sm, ["C03", "C04", "C14", "C02"], pre=[Rule("D2.auto", r"\bauto\b", "struct ostr")], rules=MB, must_fire=["D7.env-get", "D7.getline"]))
     u.add(F("multi_count", MOPT, r"std::size_t multi_option::count\(\) const", "size_t multi_count(const struct omulti *self)", ["C02"], dflt="0", rules=MB))
-    u.static_facts.append("toggle::parse_env_value compares against %d string literals; %d of them are outside the documented vocabulary: %r" % (0, 0, []))
+    lits = re.findall(r'env_value\s*==\s*"([^"]*)"', src.find("src/options/toggle.cpp", r"bool toggle::parse_env_value\(const std::string& env_value\)")["body"])
+    u.static_facts.append("toggle::parse_env_value compares against %d string literals; %d of them are outside the documented vocabulary: %r" % (len(lits), len([w for w in lits if w not in VOCAB]), [w for w in lits if w not in VOCAB]))
     u._unknown_words = unknown_words
     u.stubs += ["nitro_env_get", "ovec_push_back", "ogetline_next", "ovec_at"]
     u.trusted += [
@@ -220,7 +224,7 @@ def build(src):
                 Rule("D3.iterator-arrow", r"\bnext->", "NEXT_TOK->")]
     u.shared_decls += "#define IT_TOK (&args->a[*it_ref])\n#define NEXT_TOK (&args->a[next])\n"
     tok_calls = [Rule("D6.token-call", r"\bIT_TOK->(is_short|has_value|is_value|is_double_dash|is_named)\(\)", r"ui_\1(IT_TOK)"),
-                 Rule("D6.token-call", r"\bNEXT_TOK->(is_value)\(\)", r"ui_\1(NEXT_TOK)"),
+                 Rule("D6.token-call", r"\bNEXT_TOK->(is_value|has_value|is_short|is_named|is_double_dash|is_argument)\(\)", r"ui_\1(NEXT_TOK)"),
                  Rule("D6.token-call", r"\bin\.(is_short)\(\)", r"ui_\1(in)"),
                  Rule("D6.short-total", r"\bIT_TOK->as_short_list\(\)\.size\(\)", "ui_short_total(IT_TOK)"),
                  Rule("D6.short-total", r"\bin\.as_short_list\(\)\.size\(\)", "ui_short_total(in)"),
@@ -472,6 +476,13 @@ def build(src):
     NITRO_CANARIES;
 }
 """ % (fn, fn)))
+    u.trusted += ["BOUNDS of the options unit: K=2 declared options/multi-options/toggles per kind and G=2 groups (loops over the declaration maps are unwound completely, with unwinding assertions), "
+                  "4 distinct letters per short token (others are counted together), <=3 argv words inside parse(argc, argv), toggle counts < 2^30, token length < 2^20, < 2^40 positionals/values; "
+                  "the number of tokens of a command line is NOT bounded (loop body verified once for an arbitrary loop-carried state)",
+                  "INDUCTION over the tokens of parse(vector) is a paper argument: prologue establishes the state invariant, parser_parse_step preserves it and agrees with the reference step function, "
+                  "the epilogue ranks the sources; the for-header (`++it`, `it != end`) is read from the source by rule D11, not verified",
+                  "A-shift: the token position is fixed to 0 in the contracts of try_parse_as_option and of the step; the extracted code uses the iterator only as it, it + 1 and end (any other use of `args` aborts the extraction)",
+                  "A-text: format_padded is verified for texts of < 1024 words (keeps the int counter `space` in range)"]
     u.trusted += ["std::map<std::string, T> is modelled for ONE key, the name being declared (omapk: contains it or not, the mapped object, the number of entries): count/emplace/iteration+emplace as the standard says"]
     # ------------------------------------------------------------------ layer 5: usage text (C15)
     TERM = "include/nitro/io/terminal.hpp"
@@ -514,7 +525,18 @@ def build(src):
         "parser_validate_options": ["C02", "C03", "C04"], "parser_check_consistency": ["C13", "C04"], "parser_parse_prologue": CHAIN + ["C13", "C14"],
         "parser_parse_step": CHAIN + ["C11", "C12"], "parser_parse_epilogue": ["C02", "C03", "C04", "C12"], "parser_parse_argv": ["C04", "C12"],
     }
+    # C03 presupposes the reset state of every parse; C14 needs, besides the reset, that NO function of a parse writes a declaration:
+    # for the functions below only their frame (assigns) obligations count under C14
+    for n_ in ("option_prepare", "multi_prepare", "toggle_prepare", "parser_prepare_options"):
+        PROPS[n_] = ["C14", "C03"]
+    FRAME_ONLY = ["option_check", "multi_check", "toggle_check", "parser_validate_options", "parser_parse_epilogue", "parser_parse_step", "option_update_value",
+                  "multi_update_value", "toggle_update_value", "tpo_option", "tpo_multi", "try_parse_as_toggle"]
     for f_ in u.functions:
         if f_.name in PROPS:
             f_.props = list(PROPS[f_.name])
+        if f_.name in FRAME_ONLY and "C14" not in f_.props:
+            f_.props.append("C14")
+            f_.only_for = {"C14": r"\.assigns\.|write_set|car_set"}
+        if getattr(f_, "cases", None):
+            f_.cases = [(c[0], c[1], c[2] + ["C14"]) for c in f_.cases]
     return u
